@@ -29,7 +29,7 @@ const maxInput = 64 << 10
 var spec = lib.Spec{
 	ID: "C19",
 	Rule: "inputs (<= 64 KiB) from five rapid generators: (soup) random sequences over a fragment alphabet of identifiers/keywords, ints, string literals with f/r/other prefixes, " +
-		"single and triple quotes, brace/dollar/backslash bodies and missing terminators, punctuation, whitespace incl. tabs, CR, NUL, invalid UTF-8, comments; (literals) chains of 1-4 adjacent " +
+		"single and triple quotes, brace/dollar/backslash bodies and missing terminators, punctuation, whitespace incl. tabs, CR, NUL, invalid UTF-8, comments, backslash continuations, optionally ending in a fragment that makes the lexer look ahead at end of input; (literals) chains of 1-4 adjacent " +
 		"string/f-string/raw-string literals in 18 expression contexts; (mutated) grammar-generated near-valid programs (def/for/if/elif/else, comprehensions, lambdas, slices, inline if, type annotations, aliases, docstrings) " +
 		"with 0-4 token mutations (delete, duplicate, swap, insert, replace, break indentation, glue, truncate); (stress) 25 nesting shapes repeated up to depth 2000 (thorough: 1% of them up to 20000, 0.1% up to the 64 KiB limit); (long) very long tokens and lines (up to 16000 bytes; thorough: a tenth up to 60000); " +
 		"thorough tier adds Go native coverage-guided fuzzing seeded with every BUILD/build_defs file of the repository. " +
@@ -266,7 +266,7 @@ func seedInputs() [][]byte {
 		"x = \"a\" f\"{b}\"\n", "x = f\"{{a}} ${b} {c.d}\"\n", "def f(a:str|list&b='x', c:int=1) -> str:\n    \"\"\"doc\"\"\"\n    return a\n",
 		"x = [y for y in z if y]\n", "x = {k: v for k, v in d.items()}\n", "x = a if b else c\n", "x = y[1:2]\n", "for i, j in x:\n    continue\n",
 		"x = r'\\d' 'a' \"\"\"b\"\"\"\n", "x = lambda a, b=1: a\n", "if x:\n    pass\nelif y:\n    pass\nelse:\n    pass\n", "assert x not in y, 'm'\n",
-		"x = 0o17\n", "x = -1\n", "x = a is not b\n", "x |= 1\n", "subinclude('//a:b')\nsubinclude('//c:d')\n",
+		"x = 0o17\n", "x = -1\n", "x = -0o17\n", "x = \"a\" \\\n\"b\"\n", "x = a is not b\n", "x |= 1\n", "subinclude('//a:b')\nsubinclude('//c:d')\n",
 	} {
 		out = append(out, []byte(s))
 	}
